@@ -14,6 +14,11 @@ func (SanitizeNodeMergerFunc) Merge(inputs []*MergeInput) (*MergeResult, error) 
 		return nil, err
 	}
 
+	// nothing to remove if no service declares a Query type
+	if res.Schema.Query == nil {
+		return res, nil
+	}
+
 	// remove node from query
 	sanitizedFieldList := make(ast.FieldList, 0)
 	for _, field := range res.Schema.Query.Fields {
